@@ -297,6 +297,9 @@ pub fn run(ctx: &mut Ctx) {
                 } else if round == 0 && i == 1 {
                     // small content for the exhaustive sub-range enumeration
                     1 + rng.below(10) as usize
+                } else if round == 1 && i == 2 {
+                    // a content larger than any 16-bit window: slices, cuts and reads beyond 65535 bytes
+                    66000 + rng.below(140000) as usize
                 } else {
                     match rng.below(5) {
                         0 => rng.below(12) as usize,
